@@ -816,7 +816,7 @@ TABLE_MC = {
 
 def table_mc(work, q):
     return generic_mc(work, "MCTable.tla", "mctable", TABLE_MC[q],
-                      invariants=["IdxOK", "PositionsOK", "ChipsOK", "CountOK", "HandHasPositions", "StartNeverRefused", "DealtInOK"],
+                      invariants=["IdxOK", "PositionsOK", "ChipsOK", "CountOK", "HandHasPositions", "StartNeverRefused", "DealtInOK", "BlindsOK"],
                       properties=["ClosedIsFinal"], view="View", timeout=3400)
 
 
